@@ -921,19 +921,21 @@ Hypothesis H1 : forall q, lookup B q = Some D -> forall d, lookup r0 q <> Some (
 Hypothesis H2 : forall q d, lookup B q = Some (F d) -> lookup r0 q <> Some D.
 
 (** every path holds the buffer's entry, or still the entry of the tombstoned remote [r0], or —
-    for a buffer directory — an implicitly created directory; paths the buffer does not bind
-    hold what [r0] holds *)
+    for a buffer directory — an implicitly created directory, or — for a buffer file — a file
+    with ANY content (a streamed write that was cut short); paths the buffer does not bind hold
+    what [r0] holds *)
 Definition G (r : fs) : Prop :=
   WF r /\
   forall q, match lookup B q with
-            | Some e => lookup r q = Some e \/ lookup r q = lookup r0 q \/ (e = D /\ lookup r q = Some D)
+            | Some e => lookup r q = Some e \/ lookup r q = lookup r0 q \/ (e = D /\ lookup r q = Some D) \/
+                        (exists d d', e = F d /\ lookup r q = Some (F d'))
             | None => lookup r q = lookup r0 q
             end.
 
 Lemma G_not_file_at_buffer_dir r a : G r -> lookup B a = Some D -> is_file_at r a = false.
 Proof.
   intros [_ Hg] Ha. unfold is_file_at. specialize (Hg a). rewrite Ha in Hg.
-  destruct Hg as [E|[E|[_ E]]]; rewrite E; try reflexivity.
+  destruct Hg as [E|[E|[[_ E]|(d1 & d2 & Ed & _)]]]; [| | |discriminate]; rewrite E; try reflexivity.
   destruct (lookup r0 a) as [[d|]|] eqn:E0; try reflexivity. exfalso. exact (H1 a Ha d E0).
 Qed.
 
@@ -944,9 +946,11 @@ Proof.
   destruct (lookup B a) as [[|]|]; try discriminate. reflexivity.
 Qed.
 
-Lemma G_step r p e : G r -> In (p, e) B ->
-  exists r1, (match e with D => mkdir_all r p | F data => write_at r p data end) = Some r1 /\
-             G r1 /\ lookup r1 p = Some e /\
+(** one send of the Commit loop; for a file, [w] is what actually gets written: the buffered
+    content, or anything else when the stream is cut short *)
+Lemma G_step_gen r p e w : G r -> In (p, e) B ->
+  exists r1, (match e with D => mkdir_all r p | F _ => write_at r p w end) = Some r1 /\
+             G r1 /\ lookup r1 p = Some (match e with D => D | F _ => F w end) /\
              (forall q, q <> p -> lookup r q <> None -> lookup r1 q = lookup r q).
 Proof.
   intros HG Hin. pose proof HG as [Wr Hg].
@@ -954,16 +958,17 @@ Proof.
   assert (HBp : lookup B p = Some e) by (apply In_lookup; assumption).
   assert (Hanc : forall a, a <> [] -> forall x, x <> [] -> p = a ++ x -> is_file_at r a = false).
   { intros a _ x Hx Hpx. apply G_not_file_at_buffer_dir; [exact HG|eapply buffer_ancestor_dir; eauto]. }
-  assert (Hstep : exists r1, (match e with D => mkdir_all r p | F data => write_at r p data end) = Some r1 /\
-            WF r1 /\ lookup r1 p = Some e /\
+  assert (Hstep : exists r1, (match e with D => mkdir_all r p | F _ => write_at r p w end) = Some r1 /\
+            WF r1 /\ lookup r1 p = Some (match e with D => D | F _ => F w end) /\
             (forall q, q <> p -> lookup r q <> None -> lookup r1 q = lookup r q) /\
             (forall q, q <> p -> lookup r q = None -> lookup r1 q <> None ->
                        lookup r1 q = Some D /\ exists x, x <> [] /\ p = q ++ x)).
   { destruct e as [data|].
     - assert (Hnd : is_dir_at r p = false).
-      { unfold is_dir_at. specialize (Hg p). rewrite HBp in Hg. destruct Hg as [E|[E|[E _]]]; [rewrite E; reflexivity| |discriminate].
+      { unfold is_dir_at. specialize (Hg p). rewrite HBp in Hg.
+        destruct Hg as [E|[E|[[E _]|(d1 & d2 & _ & E)]]]; [rewrite E; reflexivity| |discriminate|rewrite E; reflexivity].
         rewrite E. destruct (lookup r0 p) as [[|]|] eqn:E0; try reflexivity. exfalso. exact (H2 p data HBp E0). }
-      destruct (write_at_succeeds r p data Wr Hgp Hp) as [b Hb]; [|exact Hnd|].
+      destruct (write_at_succeeds r p w Wr Hgp Hp) as [b Hb]; [|exact Hnd|].
       { intros a Ha Hpre. apply is_prefix_spec in Hpre as [s Hs].
         apply (Hanc a Ha (s ++ [last p []])); [destruct s; discriminate|].
         rewrite app_assoc, <- Hs. apply app_removelast_last. exact Hp. }
@@ -987,14 +992,26 @@ Proof.
   destruct Hstep as (r1 & Hs1 & W1 & Lp & Fr & Nw).
   exists r1. split; [exact Hs1|]. split; [|split; [exact Lp|exact Fr]].
   split; [exact W1|]. intros q. destruct (path_eqb q p) eqn:Eqp.
-  - apply path_eqb_spec in Eqp. subst q. rewrite HBp. left. exact Lp.
+  - apply path_eqb_spec in Eqp. subst q. rewrite HBp. destruct e as [data|].
+    + right. right. right. exists data, w. split; [reflexivity|exact Lp].
+    + left. exact Lp.
   - apply path_eqb_false in Eqp. specialize (Hg q).
     destruct (lookup r q) as [eq|] eqn:Erq.
     + rewrite (Fr q Eqp) by congruence. rewrite Erq. exact Hg.
     + destruct (lookup r1 q) as [e1|] eqn:E1.
       * destruct (Nw q Eqp Erq) as (A & x & Hx & Hpx); [congruence|].
-        rewrite (buffer_ancestor_dir p e q x Hin Hx Hpx). right. right. split; [reflexivity|congruence].
+        rewrite (buffer_ancestor_dir p e q x Hin Hx Hpx). right. right. left. split; [reflexivity|congruence].
       * exact Hg.
+Qed.
+
+Lemma G_step r p e : G r -> In (p, e) B ->
+  exists r1, (match e with D => mkdir_all r p | F data => write_at r p data end) = Some r1 /\
+             G r1 /\ lookup r1 p = Some e /\
+             (forall q, q <> p -> lookup r q <> None -> lookup r1 q = lookup r q).
+Proof.
+  intros HG Hin. destruct e as [data|].
+  - exact (G_step_gen r p (F data) data HG Hin).
+  - exact (G_step_gen r p D [] HG Hin).
 Qed.
 
 Lemma G_materialise l : forall r, G r -> (forall p e, In (p, e) l -> In (p, e) B) ->
@@ -1036,13 +1053,38 @@ Proof. rewrite !masked_spec. intros Hi (t & Ht & Hp). exists t. split; [apply Hi
 Inductive partial_remote (c : cache) : fs -> Prop :=
 | PR_tombs T1 : incl T1 (cT c) -> partial_remote c (apply_tombs (cR c) T1)
 | PR_buffer l r : (forall p e, In (p, e) l -> In (p, e) (cB c)) ->
-                  materialise (apply_tombs (cR c) (cT c)) l = Some r -> partial_remote c r.
+                  materialise (apply_tombs (cR c) (cT c)) l = Some r -> partial_remote c r
+  (** ... and the send that failed was a streamed file cut short: some other content [w]
+      (typically a prefix of the buffered one) is left at its path *)
+| PR_torn l r p d w r' : (forall p e, In (p, e) l -> In (p, e) (cB c)) ->
+                  materialise (apply_tombs (cR c) (cT c)) l = Some r ->
+                  In (p, F d) (cB c) -> write_at r p w = Some r' -> partial_remote c r'.
 
-Theorem commit_converges_after_failure c rp :
-  Inv c -> partial_remote c rp ->
+(** Convergence from ANY remote [rp] that, once the tombstones are applied, is in relation [G]
+    with the buffer and the undisturbed tombstoned remote. *)
+Theorem commit_converges_from_G c rp :
+  Inv c -> G (cB c) (apply_tombs (cR c) (cT c)) (apply_tombs rp (cT c)) ->
   exists c', c_commit (mkCache (cB c) rp (cT c)) = (c', RUnit) /\
              cB c' = cB c /\ cT c' = [] /\
              forall q, lookup (cR c') q = vlookup c q.
+Proof.
+  intros I HG.
+  destruct (apply_tombs_spec (cT c) (cR c) (inv_R c I) (inv_T c I)) as [W0 L0].
+  set (r0 := apply_tombs (cR c) (cT c)) in *.
+  assert (Lv : forall q, lookup r0 q = vis c q) by (intros q; rewrite L0; reflexivity).
+  assert (C1 : forall q, lookup (cB c) q = Some D -> forall d, lookup r0 q <> Some (F d))
+    by (intros q Hq d; rewrite Lv; exact (inv_dir c I q Hq d)).
+  assert (C2 : forall q d, lookup (cB c) q = Some (F d) -> lookup r0 q <> Some D)
+    by (intros q d Hq; rewrite Lv; exact (proj1 (inv_file c I q d Hq))).
+  destruct (G_commit_all (cB c) r0 (inv_B c I) C1 C2 _ HG) as (r2 & Hm2 & W2 & L2).
+  exists (mkCache (cB c) r2 []). unfold c_commit. simpl. rewrite Hm2.
+  split; [reflexivity|]. split; [reflexivity|]. split; [reflexivity|].
+  intros q. simpl. rewrite L2. unfold vlookup. rewrite Lv. reflexivity.
+Qed.
+
+
+Lemma partial_remote_G c rp :
+  Inv c -> partial_remote c rp -> G (cB c) (apply_tombs (cR c) (cT c)) (apply_tombs rp (cT c)).
 Proof.
   intros I Hp.
   destruct (apply_tombs_spec (cT c) (cR c) (inv_R c I) (inv_T c I)) as [W0 L0].
@@ -1053,8 +1095,16 @@ Proof.
   assert (C2 : forall q d, lookup (cB c) q = Some (F d) -> lookup r0 q <> Some D)
     by (intros q d Hq; rewrite Lv; exact (proj1 (inv_file c I q d Hq))).
   (* the state from which the retry materialises: all tombstones applied to the partial remote *)
-  assert (HG : G (cB c) r0 (apply_tombs rp (cT c))).
-  { destruct Hp as [T1 Hincl|l r Hl Hm].
+  assert (After : forall r, G (cB c) r0 r -> G (cB c) r0 (apply_tombs r (cT c))).
+    { intros r [Wr Hgr]. destruct (apply_tombs_spec (cT c) r Wr (inv_T c I)) as [W2 L2].
+      split; [exact W2|]. intros q. rewrite L2. specialize (Hgr q).
+      destruct (masked (cT c) q) eqn:Em.
+      + assert (E0 : lookup r0 q = None) by (rewrite L0, Em; reflexivity).
+        rewrite E0. destruct (lookup (cB c) q); auto.
+      + exact Hgr. }
+    assert (HG0 : G (cB c) r0 r0).
+    { split; [exact W0|]. intros q. destruct (lookup (cB c) q); auto. }
+    destruct Hp as [T1 Hincl|l r Hl Hm|l r p d w r' Hl Hm Hin Hw].
     - destruct (apply_tombs_spec T1 (cR c) (inv_R c I) (fun t H => inv_T c I t (Hincl t H))) as [W1 L1].
       destruct (apply_tombs_spec (cT c) _ W1 (inv_T c I)) as [W2 L2].
       split; [exact W2|]. intros q.
@@ -1062,21 +1112,95 @@ Proof.
       { rewrite L2, L1, L0. destruct (masked (cT c) q) eqn:Em; [reflexivity|].
         destruct (masked T1 q) eqn:E1; [|reflexivity]. rewrite (incl_masked T1 (cT c) q Hincl E1) in Em. discriminate. }
       rewrite E. destruct (lookup (cB c) q); auto.
-    - assert (HG0 : G (cB c) r0 r0).
-      { split; [exact W0|]. intros q. destruct (lookup (cB c) q); auto. }
-      destruct (G_materialise (cB c) r0 (inv_B c I) C1 C2 l r0 HG0 Hl) as (r' & Hm' & [Wr Hgr] & _ & _).
+    - destruct (G_materialise (cB c) r0 (inv_B c I) C1 C2 l r0 HG0 Hl) as (r' & Hm' & HGr & _ & _).
       change (materialise r0 l = Some r) in Hm. rewrite Hm in Hm'. inversion Hm'; subst r'.
-      destruct (apply_tombs_spec (cT c) r Wr (inv_T c I)) as [W2 L2].
-      split; [exact W2|]. intros q. rewrite L2. specialize (Hgr q).
-      destruct (masked (cT c) q) eqn:Em.
-      + assert (E0 : lookup r0 q = None) by (rewrite L0, Em; reflexivity).
-        rewrite E0. destruct (lookup (cB c) q); auto.
-      + exact Hgr. }
-  destruct (G_commit_all (cB c) r0 (inv_B c I) C1 C2 _ HG) as (r2 & Hm2 & W2 & L2).
-  exists (mkCache (cB c) r2 []). unfold c_commit. simpl. rewrite Hm2.
-  split; [reflexivity|]. split; [reflexivity|]. split; [reflexivity|].
-  intros q. simpl. rewrite L2. unfold vlookup. rewrite Lv. reflexivity.
+      apply After. exact HGr.
+    - destruct (G_materialise (cB c) r0 (inv_B c I) C1 C2 l r0 HG0 Hl) as (r1 & Hm' & HGr & _ & _).
+      change (materialise r0 l = Some r) in Hm. rewrite Hm in Hm'. inversion Hm'; subst r1.
+      destruct (G_step_gen (cB c) r0 (inv_B c I) C1 C2 r p (F d) w HGr Hin) as (r2 & Hw2 & HG2 & _).
+      simpl in Hw2. rewrite Hw in Hw2. inversion Hw2; subst r2.
+      apply After. exact HG2.
 Qed.
+
+Theorem commit_converges_after_failure c rp :
+  Inv c -> partial_remote c rp ->
+  exists c', c_commit (mkCache (cB c) rp (cT c)) = (c', RUnit) /\
+             cB c' = cB c /\ cT c' = [] /\
+             forall q, lookup (cR c') q = vlookup c q.
+Proof. intros I Hp. apply commit_converges_from_G; [exact I|apply partial_remote_G; assumption]. Qed.
+
+(** * The executable check [partial_ok] implies [G] *)
+Lemma nodup_paths_NoDup l : nodup_paths l = true -> NoDup l.
+Proof.
+  induction l as [|p l IH]; simpl; intros H; [constructor|].
+  apply andb_true_iff in H as [H1 H2]. constructor; [|apply IH; exact H2].
+  intros Hin. apply negb_true_iff in H1.
+  assert (existsb (path_eqb p) l = true) by (apply existsb_exists; exists p; split; [exact Hin|apply path_eqb_refl]).
+  congruence.
+Qed.
+
+Lemma wf_WF t : wf t = true -> WF t.
+Proof.
+  unfold wf, all_keys. intros H. apply andb_true_iff in H as [H H3]. apply andb_true_iff in H as [H1 H2].
+  split; [apply nodup_paths_NoDup; exact H1|].
+  intros p e Hin. unfold parents_ok in H2. rewrite forallb_forall in H2, H3.
+  specialize (H2 _ Hin). specialize (H3 _ Hin). simpl in H2, H3.
+  destruct p as [|n p]; [discriminate|]. repeat split; [discriminate|exact H3|exact H2].
+Qed.
+
+Lemma oentry_eqb_spec a b : oentry_eqb a b = true <-> a = b.
+Proof.
+  destruct a as [[x|]|], b as [[y|]|]; simpl; split; intros H; try discriminate; try reflexivity.
+  - apply bytes_eqb_spec in H. subst. reflexivity.
+  - inversion H; subst. apply bytes_eqb_refl.
+Qed.
+
+Lemma lookup_not_key t q : q <> [] -> ~ In q (map fst t) -> lookup t q = None.
+Proof.
+  intros Hq Hn. destruct (lookup t q) as [e|] eqn:E; [|reflexivity].
+  exfalso. apply Hn. exact (in_map fst _ _ (lookup_In t q e Hq E)).
+Qed.
+
+Lemma g_ok_cond B r0 r q : g_ok B r0 r q = true ->
+  match lookup B q with
+  | Some e => lookup r q = Some e \/ lookup r q = lookup r0 q \/ (e = D /\ lookup r q = Some D) \/
+              (exists d d', e = F d /\ lookup r q = Some (F d'))
+  | None => lookup r q = lookup r0 q
+  end.
+Proof.
+  unfold g_ok. destruct (lookup B q) as [e|].
+  - intros H. apply orb_true_iff in H as [H|H]; [apply orb_true_iff in H as [H|H]|].
+    + left. apply oentry_eqb_spec. exact H.
+    + right. left. apply oentry_eqb_spec. exact H.
+    + destruct e as [d|].
+      * right. right. right. destruct (lookup r q) as [[d'|]|]; try discriminate. exists d, d'. auto.
+      * right. right. left. split; [reflexivity|apply oentry_eqb_spec; exact H].
+  - intros H. apply oentry_eqb_spec. exact H.
+Qed.
+
+Lemma partial_ok_G c rp : Inv c -> partial_ok c rp = true ->
+  G (cB c) (apply_tombs (cR c) (cT c)) (apply_tombs rp (cT c)).
+Proof.
+  intros I H. unfold partial_ok in H. apply andb_true_iff in H as [Hw Hall].
+  apply wf_WF in Hw. destruct (apply_tombs_spec (cT c) rp Hw (inv_T c I)) as [W2 _].
+  split; [exact W2|]. intros q. rewrite forallb_forall in Hall.
+  set (r0 := apply_tombs (cR c) (cT c)) in *. set (r := apply_tombs rp (cT c)) in *.
+  destruct q as [|n q]; [simpl; left; reflexivity|].
+  destruct (in_dec (list_eq_dec (list_eq_dec N.eq_dec)) (n :: q) (map fst r ++ map fst r0 ++ map fst (cB c))) as [Hin|Hnot].
+  - apply g_ok_cond. apply Hall. exact Hin.
+  - assert (Hr : lookup r (n :: q) = None) by (apply lookup_not_key; [discriminate|intros X; apply Hnot; apply in_or_app; left; exact X]).
+    assert (H0 : lookup r0 (n :: q) = None) by (apply lookup_not_key; [discriminate|intros X; apply Hnot; apply in_or_app; right; apply in_or_app; left; exact X]).
+    assert (HB : lookup (cB c) (n :: q) = None) by (apply lookup_not_key; [discriminate|intros X; apply Hnot; apply in_or_app; right; apply in_or_app; right; exact X]).
+    rewrite HB, Hr, H0. reflexivity.
+Qed.
+
+(** What the correspondence check establishes on every observed failed Commit is enough. *)
+Theorem commit_converges_from_observed c rp :
+  Inv c -> partial_ok c rp = true ->
+  exists c', c_commit (mkCache (cB c) rp (cT c)) = (c', RUnit) /\
+             cB c' = cB c /\ cT c' = [] /\
+             forall q, lookup (cR c') q = vlookup c q.
+Proof. intros I H. apply commit_converges_from_G; [exact I|apply partial_ok_G; assumption]. Qed.
 
 (** * Copies through the cache are complete *)
 Lemma c_write_inv c p data c1 :
